@@ -357,7 +357,10 @@ class FactoredInference:
                     p = self.domain.size(proj)
                     Q = aslinearoperator(Q)
                     Q.dtype = np.dtype(Q.dtype)
-                    eig = eigsh(Q.H * Q, 1)[0][0]
+                    if p == 1: # eigsh needs k < N; Q^T Q is a 1x1 matrix here
+                        eig = float((Q.H * Q).matvec(np.ones(1))[0])
+                    else:
+                        eig = eigsh(Q.H * Q, 1)[0][0]
                     eigs[cl] += eig * n / p / noise**2
                     break
         return max(eigs.values())
